@@ -139,6 +139,7 @@ PREREQUISITES = {
         ("C13", "the NOPE indication FakeTRX builds has to validate, else it is dropped instead of sent", VALID_ACCEPTED),
         ("C02", "the suppression marking is per recipient: every recipient gets a copy of its own; only a running recipient is "
                 "handed a burst at all (a powered-off one emits no indication)", sel("C02.R1", "C02.R4")),
+        ("C05", "every FAKE_DROP / RFMUTE command that is acknowledged was handed to the command handler", sel("C05.R1", key=("in a row",))),
     ],
     "C19": [
         ("C01", "the Python decomposition must not be served from a memo whose entries can be mutated", sel("C01.R7", file="gsm_shared.py")),
